@@ -216,9 +216,9 @@ side_by_side_tiff_start(struct Storage* self_) noexcept
                 .is_ref = 1,
             };
             CHECK(self->tiff);
-            state = self->tiff->set(self->tiff, &props);
+            state = self->tiff->state = self->tiff->set(self->tiff, &props);
             CHECK(state == DeviceState_Armed);
-            state = self->tiff->start(self->tiff);
+            state = self->tiff->state = self->tiff->start(self->tiff);
             CHECK(state == DeviceState_Running);
         }
 
